@@ -521,13 +521,28 @@ def i_ROTCR(ins, fmap):
     fmap[Rn] = composer([fmap(Rn[1:32]), t])
 
 
+def _shift_dynamic_(fmap, Rm, Rn, arith):
+    # SHAD/SHLD Rm,Rn: Rm>=0 shifts Rn left by Rm[4:0], Rm<0 shifts it right
+    # by 32-Rm[4:0], i.e. by (~Rm[4:0]+1) or, if Rm[4:0] is 0, by a full 32
+    # bits (all sign bits for the arithmetic shift, 0 for the logical one).
+    m = fmap(Rm)
+    n = fmap(Rn)
+    s_p = m[0:5].zeroextend(32)
+    s_n = ((~m[0:5]) + 1).zeroextend(32)
+    if arith:
+        right = oper(OP_ASR, n, s_n)
+        full = tst(n[31:32], cst(0xFFFFFFFF, 32), cst(0, 32))
+    else:
+        right = n >> s_n
+        full = cst(0, 32)
+    right = tst(m[0:5] == 0, full, right)
+    fmap[Rn] = tst(m[31:32], right, n << s_p)
+
+
 @__pc
 def i_SHAD(ins, fmap):
     Rm, Rn = ins.operands
-    sgn = Rm[31:32]
-    s_p = Rm[0:5]
-    s_n = (~s_p) + 1
-    fmap[Rn] = fmap(sgn, Rn << s_p, op(OP_ASR, Rn, s_n))
+    _shift_dynamic_(fmap, Rm, Rn, True)
 
 
 @__pc
@@ -547,10 +562,7 @@ def i_SHAR(ins, fmap):
 @__pc
 def i_SHLD(ins, fmap):
     Rm, Rn = ins.operands
-    sgn = Rm[31:32]
-    s_p = Rm[0:5]
-    s_n = (~s_p) + 1
-    fmap[Rn] = fmap(sgn, Rn << s_p, Rn >> s_n)
+    _shift_dynamic_(fmap, Rm, Rn, False)
 
 
 @__pc
